@@ -163,6 +163,16 @@ def run_topology(sc):
                 children[u].remove(v)
                 M[v]['ups'].remove(u)
                 anynode[u]().disconnect(anynode[v]())
+            elif k == 'destroy' and 'streams' in op:
+                # destroy(streams=[...]): exactly the listed inputs are detached - none for an empty list
+                what = 'destroy %d streams=%r' % (v, op['streams'])
+                if any(uu not in M[v]['ups'] or anynode[uu]() is None for uu in op['streams']):
+                    raise InvalidScenario(what)
+                for uu in op['streams']:
+                    edits.append(('remove', uu, v))
+                    children[uu].remove(v)
+                    M[v]['ups'].remove(uu)
+                anynode[v]().destroy(streams=[anynode[uu]() for uu in op['streams']])
             elif k == 'destroy':
                 what = 'destroy %d' % v
                 for uu in list(M[v]['ups']):
@@ -322,6 +332,10 @@ def evaluate(prop, sc, want_trace=False):
             out.probes['destroy_middle_node'] = 1
         if o['op'] == 'drop':
             out.probes['reference_dropped'] = 1
+        if o['op'] == 'destroy' and 'streams' in o:
+            out.probes['destroy_with_explicit_list'] = 1
+            if not o['streams']:
+                out.probes['destroy_with_empty_list'] = 1
     for o in sc['ops']:
         if o['op'] != 'emit':
             out.faults[o['op']] = out.faults.get(o['op'], 0) + 1
@@ -443,6 +457,14 @@ def generate(prop, rng, seed, index, tier):
             if not cands:
                 continue
             v = rng.choice(cands)
+            if opname[v] != 'sink' and rng.random() < 0.4:
+                # the explicit-list form: any subset of the current inputs, the empty one included
+                sub = [u for u in ups[v] if rng.random() < 0.5]
+                ops.append({'op': 'destroy', 'v': v, 'streams': list(sub)})
+                for u in sub:
+                    kids[u].remove(v)
+                    ups[v].remove(u)
+                continue
             ops.append({'op': 'destroy', 'v': v})
             for u in ups[v]:
                 kids[u].remove(v)
